@@ -359,6 +359,16 @@ int main(int argc, char** argv) {
                 W.diff = static_cast<int>(c.i("diff", 8));
                 cfg.handshake_pow_difficulty = static_cast<std::uint8_t>(W.diff);
                 cfg.handshake_cooldown = std::chrono::seconds(c.i("cooldown", 5));
+                if (c.i("boot", 0)) {
+                    // the peers are configured bootstrap nodes with a pinned (public) identity: the node itself mines and records a
+                    // handshake for each at start-up.  Being on that list, or offering the pinned key, does not replace valid work
+                    for (long q = 1; q <= W.npeers; ++q) {
+                        Config::BootstrapNode b{};
+                        b.id = peer_id(q); b.host = "127.0.0.1"; b.port = 9;
+                        b.public_identity = peer_key(q, 1, static_cast<int>(c.i("diff", 8))).pub;
+                        cfg.bootstrap_nodes.push_back(b);
+                    }
+                }
                 W.node = std::make_unique<Node>(kSelf, cfg);
                 W.diff = TA::cfg(*W.node).handshake_pow_difficulty;
                 e.i("cooldown", TA::cfg(*W.node).handshake_cooldown.count()).i("diff", W.diff);
